@@ -60,7 +60,12 @@ CTLMOD = ["JivaVerif.Properties.Controller"]
 
 PROPS = {
     "C02": {"lean": CTLMOD + ["JivaVerif.Properties.C02Hist"], "prefixes": ["c02_", "c18_removed_silent", "ctl_reachable_inv", "removeAll_gone", "hinv_", "fanOut_ok_applied", "write_ok_applied"],
-            "runs": [ctl("faults", 640, 30, 12000, 40, 11)], "modelled": CTL},
+            "runs": [ctl("faults", 640, 30, 12000, 40, 11),
+                     # 'applied' is what a replica ANSWERS: a write whose file-system call fails must be answered with an
+                     # error (and one that is answered with success must be on disk) — the replica level of C02
+                     {"engine": "crashdiff", "profile": "write", "salt": 42, "workers": 16, "split": False,
+                      "quick": {"n": 2, "len": 0, "timeout": 600}, "thorough": {"n": 8, "len": 0, "timeout": 3000}}],
+            "modelled": CTL + ["replica level: crashdiff (profile write) makes every file-system call of a data write fail in turn (and kills the process at each) on the real replica: a write the replica reports as applied is on disk, a write whose call failed is reported as failed"]},
     "C03": {"lean": CTLMOD, "prefixes": ["c03_", "ctl_reachable_inv"],
             "runs": [ctl("membership", 480, 30, 9000, 40, 12)], "modelled": CTL},
     "C04": {"lean": CTLMOD + ["JivaVerif.Properties.C10Cluster"], "prefixes": ["c04_", "c18_consistent", "c09_start_fences_stale", "ctl_reachable_inv"],
